@@ -31,7 +31,7 @@ class RunnerBasics(Harness):
         "quick": "(markets,agents,hft,steps) in {(1,2,0,2) limit orders, (1,2,0,1) limit+market+cancel, "
                  "(1,1,1,1), (2,2,0,1), batch clearing after a 1-step no-execution session} plus scripted families: "
                  "HFT sweep of two resting orders, HFT batch of two items, cancels of filled/expired orders, two "
-                 "markets hit in any order with two items per consultation",
+                 "markets hit in any order with two items per consultation, a run on plain python numbers with the prices 0, 0.4 and 2",
         "thorough": "adds (1,3,0,1) with limit and market orders and (2,2,0,2) with limit orders",
     }
 
@@ -59,6 +59,9 @@ class RunnerBasics(Harness):
             {"M": 1, "A": 3, "H": 0, "S": 1, "acts": L, "pre": 1, "cap": 3, "script": "bystander"},
             # a trading halt fired by a fill, orders accepted during the halt, resumption: 3 agents, 4 steps
             {"M": 1, "A": 3, "H": 0, "S": 4, "acts": L, "pre": 0, "cap": 3, "script": "halt"},
+            # plain python numbers only (prices from {0, 0.4, 2}: the zero price, an off-grid price, volumes 1):
+            # a buyer and a seller, two steps, limit orders at t=0, limit orders and cancels at t=1
+            {"M": 1, "A": 2, "H": 0, "S": 2, "acts": ["none", "limit", "cancel"], "pre": 0, "cap": 2, "script": "plain-numbers"},
         ]
         if tier == "thorough":
             # (measured: with cancels and market orders over two steps, or a high-frequency agent over two steps,
@@ -108,6 +111,10 @@ class RunnerBasics(Harness):
                     "acts": ["limit"],
                     "per_agent": {"0": {"side": "B", "active": [1, 2]}, "1": {"side": "S", "active": [1, 2]},
                                   "2": {"side": "B", "active": [1, 1]}}}
+        elif sc == "plain-numbers":
+            menu = {"vol_fixed": 1, "price_set": [0, 0.4, 2], "ttl": [None],
+                    "acts_by_time": {"0": ["limit"], "1": ["none", "limit", "cancel"]},
+                    "per_agent": {"0": {"side": "B"}, "1": {"side": "S"}}}
         elif sc == "two-markets":
             menu = {"vol_fixed": 1, "max_orders": 2, "acts": ["none", "limit"],
                     "per_agent": {"0": {"side": "B"}, "1": {"side": "S"}}}
